@@ -339,11 +339,35 @@ def index_form(vals, which):
     return np.array(vals, dtype=np.uint64)
 
 
+def strided(arr):
+    """the same values as a non-contiguous view (every other row, and for 2-D arrays a column window,
+    of a wider buffer): the writer must store the values, not the neighbouring memory"""
+    n = arr.shape[0]
+    if arr.ndim == 1:
+        wide = np.zeros(2 * n + 1, dtype=arr.dtype)
+        view = wide[1::2]
+    else:
+        wide = np.zeros((2 * n + 1, arr.shape[1] + 3), dtype=arr.dtype)
+        wide[...] = np.array(7, dtype=np.uint8).astype(arr.dtype) if arr.dtype.names is None else wide
+        view = wide[1::2, 2:2 + arr.shape[1]]
+    view[...] = arr
+    assert not view.flags["C_CONTIGUOUS"] or n <= 1
+    return view
+
+
 def input_form(cfg, arr, which):
     """the writer accepts complex data as ('r','i') struct arrays, as native complex arrays (float
-    types) and as interleaved real arrays of shape (N, 2*nsub); all must store the same bytes"""
+    types) and as interleaved real arrays of shape (N, 2*nsub), contiguous or as strided views; all must
+    store the same bytes"""
     if arr.shape[0] == 0:
         return arr
+    out = _input_form(cfg, arr, which)
+    if (which // 2) % 4 == 3:
+        out = strided(out)
+    return out
+
+
+def _input_form(cfg, arr, which):
     if cfg.nsub == 1 and which % 2 == 1 and not (cfg.is_complex and which % 3 == 1):
         arr = arr[:, 0]                  # 1-D input is allowed for a single subchannel
     if not cfg.is_complex:
